@@ -347,6 +347,29 @@ fn rand_frame(rng: &mut Rng, stage: u8) -> HF {
 }
 
 fn rand_script(rng: &mut Rng) -> Vec<Ev> {
+    if rng.chance(1, 3) {
+        // the complete exchange, with a deviation at the end
+        let start = HF::Start("PLAIN EXTERNAL AMQPLAIN".into(), "en_US de_DE".into(), rng.below(4) as u8);
+        let tune = HF::Tune(*rng.pick(&[0u16, 2047, 7]), *rng.pick(&[0u32, 131072, 4096, 8192]), *rng.pick(&[0u16, 60, 5]));
+        let last = match rng.below(6) {
+            0 | 1 => vec![HF::OpenOk],
+            2 | 3 => vec![HF::Close(*rng.pick(&[530u16, 403]), rng.pick(&["NOT_ALLOWED - access to vhost refused", "x"]).to_string())],
+            4 => vec![HF::OpenOk, HF::Heartbeat0],
+            _ => vec![HF::Heartbeat0, HF::OpenOk, HF::Other(rng.below(7) as u8)],
+        };
+        let mut evs = Vec::new();
+        if rng.chance(1, 4) {
+            // several frames in one read
+            evs.push(Ev::Read(vec![start, tune], Term::Block));
+        } else {
+            evs.push(Ev::Read(vec![start], Term::Block));
+            if rng.chance(1, 5) { evs.push(Ev::Silence); }
+            evs.push(Ev::Read(vec![tune], Term::Block));
+        }
+        let term = match rng.below(8) { 0 => Term::Eof, 1 => Term::IoErr, 2 => Term::Malformed, _ => Term::Block };
+        evs.push(Ev::Read(last, term));
+        return evs;
+    }
     let mut evs = Vec::new();
     let mut stage = 0u8;
     let n = rng.range(1, 5);
